@@ -27,9 +27,12 @@ import (
 //      it never uses rsql.Walk): the witness must have exactly one, under the row's (kind, slot);
 //   2. runs the real Rewriter.Do with stubbed clock and random source and scans the RESULT with the
 //      same traversal: no non-deterministic call may remain, the statement is reported as modified,
-//      and its rendition equals the rendition of the original with only the call replaced;
-//   3. runs the real Process on the text: the call is gone from the text that would be replicated,
-//      everything around it is kept.
+//      and what the result says (verifC14Shape: kinds, slots, names, literals, operators) is what
+//      the original said with only the call replaced (random(): the drawn number; 'now': the
+//      Julian day of the stubbed instant);
+//   3. runs the real Process on the text and parses the text that would be replicated again: no
+//      non-deterministic call in it, and everything around the call says what the original said
+//      (so a clause the printer of rqlite/sql loses or changes on the way shows up here).
 // Rows inside an ORDER BY term keep random() (the property's exception); rows of kinds that cannot
 // occur below a SELECT/INSERT/UPDATE/DELETE statement (schema definitions, PRAGMA, ...) are outside
 // the property's grammar: listed, witnessed, not asserted.
@@ -154,7 +157,7 @@ var verifC14Slots = []verifC14SlotRow{
 	{kind: "CreateTableStatement", slot: "Select", typ: "*SelectStatement", sql: "CREATE TABLE x AS SELECT § AS r", scope: verifC14ScopeOther, why: "CREATE TABLE ... AS SELECT carries data but is not one of the property's statement forms (observed: Walk descends, the call is replaced)"},
 	{kind: "ColumnDefinition", slot: "Constraints", typ: "[]Constraint", sql: "CREATE TABLE x (a INTEGER NOT NULL DEFAULT (§))", scope: verifC14ScopeOther, why: verifC14WhyDDL},
 	{kind: "CheckConstraint", slot: "Expr", typ: "Expr", sql: "CREATE TABLE x (a INTEGER CHECK (§))", scope: verifC14ScopeOther, why: verifC14WhyDDL},
-	{kind: "DefaultConstraint", slot: "Expr", typ: "Expr", sql: "CREATE TABLE x (a INTEGER DEFAULT §)", scope: verifC14ScopeOther, why: verifC14WhyDDL},
+	{kind: "DefaultConstraint", slot: "Expr", typ: "Expr", sql: "CREATE TABLE x (a INTEGER DEFAULT (§))", scope: verifC14ScopeOther, why: verifC14WhyDDL},
 	{kind: "GeneratedConstraint", slot: "Expr", typ: "Expr", sql: "CREATE TABLE x (a INTEGER, b GENERATED ALWAYS AS (§))", scope: verifC14ScopeOther, why: verifC14WhyDDL},
 	{kind: "UniqueConstraint", slot: "Columns", typ: "[]*IndexedColumn", sql: "CREATE TABLE x (a INTEGER, UNIQUE (a, §))", scope: verifC14ScopeOther, why: verifC14WhyDDL},
 	{kind: "AlterTableStatement", slot: "ColumnDef", typ: "*ColumnDefinition", sql: "ALTER TABLE t ADD COLUMN c DEFAULT (§)", scope: verifC14ScopeOther, why: verifC14WhyDDL},
@@ -233,6 +236,93 @@ func verifC14Scan(n any, path string, hits []verifC14Hit) []verifC14Hit {
 	return hits
 }
 
+// verifC14Shape renders what a statement SAYS as far as this harness reads it: the tree of kinds
+// and child slots (own traversal), identifier names, literal values and operators. Positions and
+// keyword flags (DISTINCT, ASC, OR REPLACE, ...) are not part of it. "LIMIT a, b" is read as SQLite
+// reads it: a is the offset, b the limit (lang_select.html: "if a comma is used instead of the
+// OFFSET keyword, then the offset is the first number and the limit is the second").
+func verifC14Shape(n any) string {
+	kind, ch := verifC14Children(n)
+	s := "(" + kind
+	comma := false
+	switch x := n.(type) {
+	case *rsql.Ident:
+		s += " " + strconv.Quote(x.Name)
+	case *rsql.StringLit:
+		s += " " + strconv.Quote(x.Value)
+	case *rsql.NumberLit:
+		s += " " + x.Value
+	case *rsql.BlobLit:
+		s += " x" + strings.ToUpper(x.Value)
+	case *rsql.BoolLit:
+		s += " " + strconv.FormatBool(x.Value)
+	case *rsql.TimestampLit:
+		s += " " + strings.ToUpper(x.Value)
+	case *rsql.BindExpr:
+		s += " " + x.Name
+	case *rsql.UnaryExpr:
+		s += " op" + strconv.Itoa(int(x.Op))
+	case *rsql.BinaryExpr:
+		s += " op" + strconv.Itoa(int(x.Op))
+	case *rsql.Null:
+		s += " op" + strconv.Itoa(int(x.Op))
+	case *rsql.SelectStatement:
+		comma = x != nil && x.OffsetComma.IsValid()
+	case *rsql.DeleteStatement:
+		comma = x != nil && x.OffsetComma.IsValid()
+	}
+	if comma {
+		li, oi := -1, -1
+		for i, c := range ch {
+			switch c.slot {
+			case "LimitExpr":
+				li = i
+			case "OffsetExpr":
+				oi = i
+			}
+		}
+		if li >= 0 && oi >= 0 {
+			ch[li].n, ch[oi].n = ch[oi].n, ch[li].n
+		}
+	}
+	for _, c := range ch {
+		s += " " + c.slot + "=" + verifC14Shape(c.n)
+	}
+	return s + ")"
+}
+
+// verifC14CommaLimit: does a SELECT or DELETE below n use the "LIMIT a, b" form?
+func verifC14CommaLimit(n any) bool {
+	switch x := n.(type) {
+	case *rsql.SelectStatement:
+		if x != nil && x.OffsetComma.IsValid() {
+			return true
+		}
+	case *rsql.DeleteStatement:
+		if x != nil && x.OffsetComma.IsValid() {
+			return true
+		}
+	}
+	_, ch := verifC14Children(n)
+	for _, c := range ch {
+		if verifC14CommaLimit(c.n) {
+			return true
+		}
+	}
+	return false
+}
+
+// verifC14Returning: the RETURNING clause of an UPDATE or DELETE statement
+func verifC14Returning(st rsql.Statement) *rsql.ReturningClause {
+	switch x := st.(type) {
+	case *rsql.UpdateStatement:
+		return x.ReturningClause
+	case *rsql.DeleteStatement:
+		return x.ReturningClause
+	}
+	return nil
+}
+
 // verifC14ExpectRewrite: must the call of row's witness be replaced under these flags?
 func verifC14ExpectRewrite(row verifC14SlotRow, fn int, rwrand, rwtime bool) bool {
 	if row.scope != verifC14ScopeDML || row.sql == "" {
@@ -249,11 +339,35 @@ func VerifC14Traversal() {
 	row := verifC14Slots[verifChoice("slot", len(verifC14Slots))]
 	fn := verifChoice("fn", len(verifC14Markers))
 	flags := verifC14FlagSets[verifChoice("flags", 2+2*verifTier())]
-	rwrand, rwtime := flags&1 != 0, flags&2 != 0
 	if row.sql == "" {
 		verifReach("no-text-reaches-the-slot")
 		return
 	}
+	verifC14Check(row, fn, flags&1 != 0, flags&2 != 0)
+}
+
+// Rendition: statement forms of the property (RETURNING, UPSERT, CTE, both LIMIT forms) with the
+// call somewhere; no claim about a slot, only steps 2 and 3 of verifC14Check: what is replicated
+// says what the original said, with only the call replaced.
+var verifC14RenderTexts = []string{
+	"UPDATE t SET v = § WHERE a = 1 RETURNING id, v",
+	"DELETE FROM t WHERE a < § RETURNING id",
+	"INSERT INTO t(v) VALUES (§) RETURNING id",
+	"INSERT INTO t(id, v) VALUES (1, §) ON CONFLICT (id) DO UPDATE SET v = excluded.v WHERE t.a < 3 RETURNING v",
+	"INSERT INTO t(v) SELECT a FROM t WHERE a < § ORDER BY a LIMIT 3 OFFSET 2",
+	"INSERT INTO t(v) SELECT a FROM t WHERE a < § ORDER BY a LIMIT 2, 3",
+	"DELETE FROM t WHERE a < § ORDER BY a LIMIT 2, 3",
+	"UPDATE t SET (a, v) = (1, §) FROM (SELECT 1 AS r) AS s WHERE t.a = s.r",
+}
+
+func VerifC14Render() {
+	verifPanicsAreViolations()
+	row := verifC14SlotRow{sql: verifC14RenderTexts[verifChoice("text", len(verifC14RenderTexts))]}
+	fn := verifChoice("fn", len(verifC14Markers))
+	verifC14Check(row, fn, true, true)
+}
+
+func verifC14Check(row verifC14SlotRow, fn int, rwrand, rwtime bool) {
 	marker := verifC14Markers[fn]
 	text := strings.Replace(row.sql, "§", marker, 1)
 
@@ -262,20 +376,15 @@ func VerifC14Traversal() {
 	verifAssert("C14-walk-witness-parses", err == nil && parsed != nil)
 	hits := verifC14Scan(parsed, "", nil)
 	verifAssert("C14-walk-witness-has-one-call", len(hits) == 1)
-	where := "/" + row.kind + "." + row.slot
-	if row.typ == "Expr" || row.typ == "[]Expr" {
-		verifAssert("C14-walk-witness-call-directly-in-slot", strings.HasSuffix(hits[0].path, where))
-	} else {
-		verifAssert("C14-walk-witness-call-below-slot", strings.Contains(hits[0].path+"/", where+"/"))
+	if row.kind != "" {
+		where := "/" + row.kind + "." + row.slot
+		if row.typ == "Expr" || row.typ == "[]Expr" {
+			verifAssert("C14-walk-witness-call-directly-in-slot", strings.HasSuffix(hits[0].path, where))
+		} else {
+			verifAssert("C14-walk-witness-call-below-slot", strings.Contains(hits[0].path+"/", where+"/"))
+		}
+		verifAssert("C14-walk-order-by-mark-matches-path", row.orderBy == strings.Contains(hits[0].path, "/OrderingTerm.X"))
 	}
-	verifAssert("C14-walk-order-by-mark-matches-path", row.orderBy == strings.Contains(hits[0].path, "/OrderingTerm.X"))
-	// the rendition of the untouched statement (a second parse: Do rewrites in place)
-	orig, err2 := rsql.NewParser(strings.NewReader(text)).ParseStatement()
-	verifAssert("C14-walk-witness-parses", err2 == nil && orig != nil)
-	origText := orig.String()
-	at := strings.Index(origText, marker)
-	verifAssert("C14-walk-printer-keeps-the-call", at >= 0)
-	pre, suf := origText[:at], origText[at+len(marker):]
 
 	// 2. the real rewriter, stubbed sources
 	now := time.Date(2024, 2, 29, 13, 14, 15, 250_000_000, time.UTC)
@@ -284,6 +393,7 @@ func VerifC14Traversal() {
 	rw.RewriteRand, rw.RewriteTime = rwrand, rwtime
 	rw.nowFn = func() time.Time { return now }
 	rw.randFn = func() int64 { return 4242 }
+	before := verifC14Shape(parsed)
 	res, modified, _, derr := rw.Do(parsed)
 	if row.scope != verifC14ScopeDML {
 		verifReach("outside-the-grammar-observed")
@@ -291,7 +401,7 @@ func VerifC14Traversal() {
 	}
 	verifAssert("C14-walk-do-no-error", derr == nil && res != nil)
 	left := verifC14Scan(res, "", nil)
-	got := res.String()
+	after := verifC14Shape(res)
 
 	// 3. the real Process on the text (real clock; the engine models the random source)
 	st := []*proto.Statement{{Sql: text}}
@@ -299,33 +409,69 @@ func VerifC14Traversal() {
 	verifAssert("C14-walk-process-no-error", perr == nil)
 	out := st[0].Sql
 
-	if !verifC14ExpectRewrite(row, fn, rwrand, rwtime) {
+	if row.kind != "" && !verifC14ExpectRewrite(row, fn, rwrand, rwtime) {
 		// the ORDER BY exception, or rewriting switched off: everything stays
 		verifReach("call-left-alone")
-		verifAssert("C14-walk-left-alone-call-kept", len(left) == 1 && got == origText)
+		verifAssert("C14-walk-left-alone-call-kept", len(left) == 1 && after == before)
 		verifAssert("C14-walk-left-alone-not-reported", !modified)
 		verifAssert("C14-walk-left-alone-text-byte-identical", out == text)
 		return
 	}
-	if len(left) != 0 && !modified && got == origText && out == text && row.finding != "" {
+	if len(left) != 0 && !modified && after == before && out == text && row.finding != "" {
 		// the call under this (kind, slot) was never shown to the visitor
 		verifFinding(row.finding)
 	}
 	verifReach("call-shown-to-the-visitor")
 	verifAssert("C14-walk-call-in-slot-reaches-visitor", len(left) == 0)
 	verifAssert("C14-walk-rewrite-reported", modified)
+	// only the call changed: the shape of the result is the shape of the original with the call's
+	// subtree replaced by the literal / the call with a number for 'now'
+	callShape := verifC14Shape(hits0Call(text))
+	at := strings.Index(before, callShape)
+	verifAssert("C14-walk-shape-has-the-call", at >= 0)
+	pre, suf := before[:at], before[at+len(callShape):]
 	if fn == 0 {
-		verifAssert("C14-walk-only-the-call-changed", got == pre+"4242"+suf)
+		verifAssert("C14-walk-only-the-call-changed", after == pre+"(NumberLit 4242)"+suf)
 	} else {
-		verifAssert("C14-walk-only-the-call-changed", strings.HasPrefix(got, pre+"date(") && strings.HasSuffix(got, ")"+suf) && len(got) > len(pre)+len(suf)+6)
-		num := got[len(pre)+5 : len(got)-len(suf)-1]
-		jd, ferr := strconv.ParseFloat(num, 64)
+		head := pre + "(Call Name=(Ident \"date\") Args=(NumberLit "
+		verifAssert("C14-walk-only-the-call-changed", strings.HasPrefix(after, head) && strings.HasSuffix(after, "))"+suf) && len(after) > len(head)+len(suf)+2)
+		jd, ferr := strconv.ParseFloat(after[len(head):len(after)-len(suf)-2], 64)
 		d := jd - wantJD
 		if d < 0 {
 			d = -d
 		}
 		verifAssert("C14-walk-now-is-the-julian-day", ferr == nil && d <= 2e-6)
 	}
-	verifAssert("C14-walk-process-call-gone", !strings.Contains(strings.ToLower(out), marker))
-	verifAssert("C14-walk-process-rest-kept", strings.HasPrefix(out, pre) && strings.HasSuffix(out, suf) && len(out) > len(pre)+len(suf))
+
+	// 3. what is replicated is the TEXT Process produced: read it again with the parser. It must say
+	// what the original said, except for the call.
+	verifAssert("C14-walk-process-call-gone", !strings.Contains(strings.ToLower(out), marker) && out != text)
+	back, berr := rsql.NewParser(strings.NewReader(out)).ParseStatement()
+	verifAssert("C14-render-process-output-parses", berr == nil && back != nil)
+	verifAssert("C14-render-process-output-has-no-call", len(verifC14Scan(back, "", nil)) == 0)
+	shape := verifC14Shape(back)
+	kept := strings.HasPrefix(shape, pre) && strings.HasSuffix(shape, suf) && len(shape) > len(pre)+len(suf)
+	if !kept {
+		orig, _ := rsql.NewParser(strings.NewReader(text)).ParseStatement()
+		if verifC14Returning(orig) != nil && verifC14Returning(back) == nil {
+			verifFinding("C14-render-drops-returning-clause")
+		}
+		if verifC14CommaLimit(orig) && !verifC14CommaLimit(back) {
+			verifFinding("C14-render-limit-comma-swapped")
+		}
+	}
+	verifAssert("C14-render-process-output-says-the-rest", kept)
+}
+
+// hits0Call parses text again and returns its one non-deterministic call (untouched by Do).
+func hits0Call(text string) *rsql.Call {
+	st, err := rsql.NewParser(strings.NewReader(text)).ParseStatement()
+	if err != nil {
+		return nil
+	}
+	h := verifC14Scan(st, "", nil)
+	if len(h) != 1 {
+		return nil
+	}
+	return h[0].call
 }
